@@ -92,11 +92,34 @@ CHECKS.update({
              "parallel stages) ALL interleavings are explored on the real code (stateless DFS, history-key pruning, no preemption bound) and every terminal "
              "state is checked: outcome = strictly sequential reference, no happens-before data race on the value stacks, no deadlock, no panic on a "
              "library goroutine. A conformance pass evaluates every quick scenario on the PLAIN build (real goroutines, a really sleeping slow()) against "
-             "the sequential variant.",
+             "the sequential variant. A third pass runs the same scenarios free-running on a -race build; every distinct report is classified.",
         note=VS + " List lengths beyond 17 and more than 3 elements in the parallel phase are not explored (each further element repeats the same worker cycle). "
              "A multiUse consumer that never iterates its list yields the pinned 'iterator timed out' error (repository test) and is excluded from the outcome oracle.",
         technique="stateless model checking of the implementation under a controlled scheduler: exhaustive interleaving exploration with vector-clock race detection",
         design_ref="DESIGN.md §3.3, §5 C06",
+    ),
+})
+
+CHECKS.update({
+    "C08": dict(
+        level="exploration", engine="bex",
+        text="Every pipeline numbers(n).map(counting closure) -> <=2 (thorough: <=3) lazy stages out of 18 variants (map, accept, skip, top, combine*, iir*, number, "
+             "compact, +, cross, fsm) -> 8 short-circuit consumers (first, single, top(k).size/.string, present, indexWhere, ~, multiUse of two of them), decisive "
+             "position 0..6 or absent, source lengths {0,1,2,5,k+5,24,10^11}, with one failing call at every position 0..needed+3 of the source, of each stage "
+             "closure and of the consumer predicate, or nowhere (1.7 M / 38 M cases), is executed on the real code with counting host functions that abort after "
+             "1000 calls. Call counts must lie between the needed prefix and needed + one read-ahead per stage of a declarative demand model whose transfer "
+             "functions are validated against brute-force prefix stability; the result must be what the needed prefix determines (a failure inside it surfaces, "
+             "behind it does not); unconsumed pipelines evaluate nothing. Coop build: one slow map/accept stage, 10 consumers, decisive source element 10..15, "
+             "W=2 (thorough: 2,3): ALL interleavings on n=30 (terminates, sequential result, needed <= calls) and all timing-consistent interleavings on n=30 and "
+             "10^11 (calls <= sequential demand + W, pulls <= +1, independent of the source length).",
+        note="Trusted: the check's own eager reference and demand model (cmd/c08/model.go, validated against brute force over 32 continuations), the counting host "
+             "functions, " + VS + " No read-ahead bound is asserted under arbitrary schedules, because none exists: the collector of the parallel stage buffers "
+             "out-of-order results without limit (measured maximum = source length); the worker-count bound is decided under 'equal closure durations, "
+             "instantaneous communication'. multiUse after an evaluated failing element: only result, termination and lower bounds. The 10^11 source is analysed "
+             "on its first 40 elements. Evaluations over 2 ms are repeated (the plain build could have switched to goroutines on wall-clock time).",
+        technique="bounded-exhaustive enumeration against a brute-force-validated demand model with counting host functions + stateless exploration of all "
+                  "(timing-consistent) interleavings under a controlled scheduler",
+        design_ref="DESIGN.md §5 C08, Appendix B, Corrections C-2",
     ),
 })
 
